@@ -204,16 +204,31 @@ def uncovered_blocks(prog, only=None):
     return out
 
 
+def _contract_summarised(chk, prog):
+    """names of the library functions that a group-mode (L2) executor summarises by contract"""
+    try:
+        from sym import l2 as L2m, kernels as K
+        base = getattr(chk, "_base", None) or K.Base(prog)
+        h = L2m.L2(base, chk)
+        return {n for n in h.ex.summaries if n in prog.funcs and prog.funcs[n].get("pkg", "").startswith("filippo.io/edwards25519") and not prog.funcs[n].get("external")}
+    except Exception:
+        return set()
+
+
 def bounds_cover_code(chk, prog, roots, exempt=()):
     """unwinding-assertion analogue: every basic block (other than panic-only code) of the functions under test and of
     the repo functions they reach and enter must have been executed by some explored path; otherwise the code contains
     behaviour outside the harness bounds (e.g. a branch on a term count above n) and the check is undecided.
     Returns the length-like constants of the functions with unexplored blocks (for the native battery)."""
     from sym.check import Ob
+    # functions that the explorations of the roots replace by their contracts (the point formulas, selectors, recoders,
+    # field and scalar operations: each has its own harness that iterates over all its paths) are not entered by those
+    # explorations; blocks of helpers that only they reach are not part of what the term-count bound has to cover
+    stop = _contract_summarised(chk, prog) - set(roots)
     seen, work = set(), list(roots)
     while work:
         x = work.pop()
-        if x in seen:
+        if x in seen or x in stop:
             continue
         seen.add(x)
         fx = prog.funcs.get(x)
